@@ -271,7 +271,11 @@ class _Routine:
             if self.name is None:
                 self.issue(i, "retsub-in-main", "retsub reached in the main routine")
                 raise _GiveUp()
-            self.ret_heights.append((i, len(st) - b, tuple(st[-4:])))
+            if self.proto is not None:
+                # with proto A R the results are the first R cells of the frame
+                self.ret_heights.append((i, len(st) - b, tuple(st[: self.proto[1]])))
+            else:
+                self.ret_heights.append((i, len(st) - b, tuple(st[-4:])))
         else:
             raise _GiveUp()
         return b, st
@@ -395,6 +399,10 @@ class Analyser:
                     elif sig is not None and h != sig.nrets - sig.nargs:
                         self.out.issues.append(L.Issue(prog.instrs[i].line, "retsub-height", "%s: retsub at relative height %d, other exits / signature give %d (args %d, results %d)" % (name, h, sig.nrets - sig.nargs, sig.nargs, sig.nrets)))
                     d = self.declared.get(name)
+                    if d is not None and d.ret_types and r.proto is not None and h >= r.proto[1]:
+                        for k, want in enumerate(d.ret_types):
+                            if k < len(top) and top[k] in ("U", "B") and want in ("U", "B") and top[k] != want:
+                                self.out.issues.append(L.Issue(prog.instrs[i].line, "ret-type", "%s returns a %s in frame cell %d where %s is declared" % (name, _tn(top[k]), k, _tn(want))))
                     if d is not None and d.ret_types and r.proto is None:
                         for k, want in enumerate(reversed(d.ret_types)):
                             if k < len(top):
